@@ -358,6 +358,13 @@ class Check:
             except struct.error:
                 w = 'err StructError'
             reqs.append(f'pyop pack {n}'); want.append(w)
+        for t3 in ((0, 1, 480), (1, 2, 32767), (2, 0, -32768), (-1, 65535, 1), (1, 1, 32768), (-32769, 0, 0), (1, 256, 96)):
+            import struct
+            try:
+                w = 'ok ' + ' '.join(map(str, struct.pack('>hhh', *t3)))
+            except struct.error:
+                w = 'err StructError'
+            reqs.append('pyop pack16 %d %d %d' % t3); want.append(w)
         for xs in ([], [5], [5, 6, 7]):
             for i in (-4, -3, -1, 0, 1, 2, 3):
                 reqs.append('pyop idx %d %s' % (i, ' '.join(map(str, xs)))); want.append(py(lambda: xs[i]))
